@@ -134,6 +134,7 @@ HEAP_GROUPS = {
             ["hash", "clearAllAccounting", "addNewNode", "removeNode", "retrieveNode", "getTotalLeaks", "getFirstLeak",
              "getFirstLeakForAllocationStage", "getNextLeak", "getNextLeakForAllocationStage"]],
 }
+HEAP_FOOTERS = {}
 HEAP_HEADERS = {
     "C04": "From CppUVerif Require Import lib.CSem lib.CMem lib.CHeap.\nLocal Open Scope Z_scope.\n"
            "(* translated by tools/cxx2heap.py from clang's AST: the whole of MemoryLeakDetectorList and MemoryLeakDetectorTable; objects are "
@@ -144,7 +145,8 @@ HEAP_HEADERS = {
 def generate_heap(h, prop):
     repo = os.environ.get("VERIF_REPO", "/repo")
     root = os.path.dirname(os.path.dirname(os.path.abspath(__file__)))
-    return cxx2heap.generate_cached(h, repo, root, "Heap" + prop, HEAP_GROUPS[prop], HEAP_HEADERS[prop], HEAP_RECORDS[prop])
+    return cxx2heap.generate_cached(h, repo, root, "Heap" + prop, HEAP_GROUPS[prop], HEAP_HEADERS[prop], HEAP_RECORDS[prop],
+                                    HEAP_FOOTERS.get(prop, ""))
 
 # ------------------------------------------------------------------ C18: the string buffer cache
 SSC = "src/CppUTest/SimpleStringInternalCache.cpp"
@@ -346,3 +348,25 @@ HEAP_HEADERS["C20"] = ("From CppUVerif Require Import lib.CSem lib.CMem lib.CHea
                        "print(\"literal\") / print(number) / printEscaped(text) are the ghost events TText / TNum / TEsc; the virtual test.willRun() takes "
                        "the next value of the ghost stream willruns; the getters of UtestShell, TestResult and TestFailure read the fields they return *)\n"
                        "Inductive tev := TText (s : string) | TNum (n : Z) | TEsc (text : Z).\n")
+
+# ------------------------------------------------------------------ C12: the prefix dispatch of CommandLineArguments::parse
+CLA = "src/CppUTest/CommandLineArguments.cpp"
+_G12 = [["evs", "list aev12"], ["hres", "list (Z * Z)"]]
+_H12 = ["setRepeatCount", "addGroupFilter", "addGroupDotNameFilter", "addStrictGroupFilter", "addExcludeGroupFilter", "addExcludeStrictGroupFilter",
+        "addNameFilter", "addStrictNameFilter", "addExcludeNameFilter", "addExcludeStrictNameFilter", "setShuffle",
+        "addTestToRunBasedOnVerboseOutput", "setOutputType", "parseAllArguments", "setPackageName"]
+_C12C = {n: {"handler": n} for n in _H12}
+_C12C.update({"operator==": {"text_pred": "arg_is"}, "startsWith": {"text_pred": "arg_starts"}})
+HEAP_RECORDS["C12"] = [["CommandLineArguments", CLA]]
+HEAP_GROUPS["C12"] = [dict(file=CLA, name="CommandLineArguments::parse", coq="src_args_parse", calls=_C12C, ghosts=_G12,
+                           opaque_classes=["SimpleString"])]
+HEAP_HEADERS["C12"] = ("From CppUVerif Require Import lib.CSem lib.CMem lib.CHeap.\nLocal Open Scope Z_scope.\n"
+                       "(* translated by tools/cxx2heap.py: CommandLineArguments::parse, the loop over argv and its chain of prefix tests. An argument is an "
+                       "opaque integer that identifies its text; `argument == \"lit\"` and `argument.startsWith(\"lit\")` are the Section variables arg_is / "
+                       "arg_starts applied to it (the theorems assume they decide equality with / prefix of the literal); every value-taking option is "
+                       "handed to its handler: the ghost event AHandler name index literal flags, whose result and new index (the handlers get the index "
+                       "by reference and advance it when the value is the next argument) are the next pair of the oracle stream hres; the flag options "
+                       "store into the members of the object *)\n"
+                       "Inductive aev12 := AHandler (name : string) (index : Z) (opt : string) (flags : list Z).\n"
+                       "Section Parse.\nVariable arg_is : Z -> string -> Z.\nVariable arg_starts : Z -> string -> Z.\n")
+HEAP_FOOTERS["C12"] = "\nEnd Parse.\n"
